@@ -99,11 +99,11 @@ PROPS["C19"] = {
          "thorough": ["dl_hist_2_2_6", "dl_hist_2_3_5", "dl_hist_3_3_2", "dl_hist_3_3_3", "dl_hist_3_3_4", "dl_hist_3_3_5", "dl_hist_3_3_7", "dl_hist_4_3_3", "dl_inv_3_1_6",
                       "dl_laws_3_3_20", "dl_laws_4_4_4"]},
         {"id": "MEM-jaccard", "text": "every unchecked read of the Jaccard merge (simple_similarity) and every buffer access of "
-                                      "Jaccard::similarity is in range, from ARBITRARY earlier buffer contents shorter / longer than needed",
-         "bounds": "(la,lb,p1,p2) of the jac_hist / jac_simple instances; all CBMC pointer checks selected",
+                                      "Jaccard::similarity is in range, from ARBITRARY earlier buffer contents shorter / longer than needed, and from buffers of small CAPACITY (jac_cap: growth path)",
+         "bounds": "(la,lb,p1,p2) of the jac_hist / jac_simple instances, (la,lb,cap1,cap2) of jac_cap; all CBMC pointer checks selected",
          "opts": {"unwind": 8, "timeout": 1500},
-         "quick": ["jac_hist_2_2_1_3", "jac_hist_2_3_1_5", "jac_hist_3_2_3_2", "jac_simple_3_3", "jac_simple_2_4"],
-         "thorough": ["jac_hist_3_3_5_1", "jac_hist_4_4_6_1", "jac_hist_4_3_1_6", "jac_simple_5_5", "jac_simple_6_6"],
+         "quick": ["jac_hist_2_2_1_3", "jac_hist_2_3_1_5", "jac_hist_3_2_3_2", "jac_cap_2_3_1_1", "jac_cap_3_2_1_2", "jac_simple_3_3", "jac_simple_2_4"],
+         "thorough": ["jac_hist_3_3_5_1", "jac_hist_4_4_6_1", "jac_hist_4_3_1_6", "jac_cap_2_3_2_2", "jac_cap_3_3_2_1", "jac_simple_5_5", "jac_simple_6_6"],
          "per_instance": {"jac_simple_5_5": {"unwind": 12}, "jac_simple_6_6": {"unwind": 14}, "jac_hist_4_4_6_1": {"unwind": 10}, "jac_hist_4_3_1_6": {"unwind": 10}}},
     ],
 }
@@ -156,7 +156,8 @@ WM_CONTRACT = {"id": "WM-contract", "text": "whatever the REAL word_match return
                "bounds": "(|r|,|q|,stem_r,stem_q,finished) from the instance names, |r|,|q| <= 3; all chars, classes, POS flags symbolic",
                "opts": WM_OPTS,
                "quick": ["wm_con_1_1_1_1_f", "wm_con_1_1_1_1_u", "wm_con_2_2_2_2_f", "wm_con_2_2_1_1_u", "wm_con_2_1_2_1_u", "wm_con_1_2_1_2_f"],
-               "thorough": ["wm_con_3_3_3_3_f", "wm_con_3_3_2_2_f", "wm_con_3_3_1_1_u", "wm_con_3_2_3_2_u", "wm_con_2_3_2_3_f"]}
+               "thorough": ["wm_con_3_3_3_3_f", "wm_con_3_3_2_2_f", "wm_con_3_3_1_1_u", "wm_con_3_2_3_2_u", "wm_con_2_3_2_3_f"],
+               "per_instance": {"wm_con_3_3_1_1_u": {"mem_gb": 44, "timeout": 3000}, "wm_con_3_3_2_2_f": {"mem_gb": 16}, "wm_con_3_3_3_3_f": {"mem_gb": 16}}}
 WM_PREFIX = {"id": "WM-prefix", "text": "if the query word is the k-letter prefix of the title word (same characters and classes), unfinished - or "
                                          "finished when k = |word| - the REAL word_match matches and reports exactly the span (0,k) on both sides with zero typos",
              "bounds": "(|r|,k,stem_r,stem_q,finished) from the instance names, |r| <= 3", "opts": WM_OPTS,
@@ -182,9 +183,10 @@ TM_STRUCT = {"id": "TM-structure", "text": "REAL text_match + score + hit_matche
                                             "the word, each word matched at most once, in word order; no span is longer than the typed stretch + 1; a non-empty "
                                             "query is kept only with at least one span; an empty query keeps every record with no span; the matched-characters "
                                             "score is non-negative and the rating component is the record's rating",
-             "bounds": "title/query word shapes and stems from the instance names (words of 1-3 letters, at most 2 words); all chars, classes, POS flags, rating symbolic",
+             "bounds": "title/query word shapes and stems from the instance names (one word of 1-3 letters each side, or an empty side; two-word titles exceed 10 GB); all chars, classes, POS flags, rating symbolic",
              "opts": TM_OPTS,
-             "quick": ["tm_r1_q1", "tm_r2_q2", "tm_r2_q0", "tm_r0_q2"], "thorough": ["tm_r2_q2u", "tm_r3_q3", "tm_r3_q3u", "tm_r11_q1", "tm_r11_q11"]}
+             "quick": ["tm_r1_q1", "tm_r2_q2", "tm_r2_q0", "tm_r0_q2", "tm_ascii_r1_q1"], "thorough": ["tm_r2_q2u", "tm_r3_q3", "tm_r3_q3u", "tm_ascii_r2_q2"],
+             "per_instance": {"tm_r3_q3u": {"mem_gb": 40, "timeout": 3000}, "tm_r3_q3": {"mem_gb": 20}}}
 
 SPLIT_SAFE = {"id": "SPLIT-safe", "text": "for ANY joined match permitted by the matcher's contract over two title words (l1 letters, gap, l2 letters): the real "
                                          "WordView::join has the right extent and stem; the real WordMatch::split returns parts aligned with the two words, the "
